@@ -3,9 +3,11 @@ import subprocess, os, re, shutil
 import core, gen, e2e
 from core import hx, unhx
 
-LEAN_MODULE = 'QM.Props.C18'
-THEOREMS = ['Wr.C18_reported', 'Wr.C18_ok', 'Wr.C18_loop_reported', 'Wr.C18_others_written', 'Wr.C18_exit_zero_iff', 'Wr.C18_pinned_counterexample']
+LEAN_MODULE = 'QM.Props.C18Run'
+THEOREMS = ['Wr.C18_reported', 'Wr.C18_ok', 'Wr.C18_loop_reported', 'Wr.C18_others_written', 'Wr.C18_exit_zero_iff', 'Wr.C18_pinned_counterexample',
+            'Cv.C18_run_failed_write_reported', 'Cv.C18_run_not_enabled', 'Cv.C18_run_others_written', 'Cv.C18_run_no_outdir', 'Cv.process_effs', 'Cv.process_errs']
 ASSUMPTIONS = [
+    'Cv.process (QM/Run.lean) is the model of the whole of process() — loading, drop-ins, output directory, conversion loop, write or print, enable — with the file system\'s answers as a parameter; the C18_run_* theorems are about it, and it is compared with real dry and normal runs on generated trees with injected faults (directory or /dev/full in the place of a service file, file in the place of the output directory): exit status, errors with paths, written files, links',
     'Wr.generate models generate_service_file over BufWriter\'s documented contract (buffer, spill, write-through, explicit flush; the flush on drop discards its error) with a sink that fails after a byte budget; std::io and the kernel\'s error sources are not verified',
     'tie: real runs of the binary with injected faults at every unit position of 1-4-unit runs: the service path pre-seeded as a symlink to /dev/full (write/flush fault, files below and above the 8 KiB buffer), as a directory (create fault), and an output directory that cannot be created; the model\'s verdict for the same piece sizes is compared with what the binary did',
 ]
@@ -134,6 +136,9 @@ def correspond(ctx):
                 res.corr_disagreements.append(dict(op=line, op_readable=dict(case=c), impl=f'write reported ok={impl_ok}; stderr {e2e.error_lines(o["stderr"])[:3]}', model=b))
     res.samples.append(dict(kind='fault-case', case=cases[0]))
     ctx.log(f'correspondence (writer model vs fault-injection runs): {len(lines)} cases, {len(res.corr_disagreements)} disagreements')
+    # the model of the whole run against dry and normal runs, half of them with a fault
+    import runcorr
+    runcorr.correspond_process(ctx, 240 if ctx.thorough else 60)
 
 
 def oracle(ctx):
